@@ -82,6 +82,92 @@ def make_psy(info, version, blob=None):
     return psy
 
 
+LAYER_ALG = "/repo/src/psyclone/tests/test_files/dynamo0p3/4.8_multikernel_invokes.f90"
+
+
+def parse_layer_subject():
+    '''An algorithm whose first invoke calls the subject kernel several times
+    (for runs of one process that are kernels of ONE PSy layer).'''
+    from psyclone.parse.algorithm import parse
+    _, info = parse(LAYER_ALG, api=SUBJECT["api"])
+    return info
+
+
+def make_layer(info2, versions, blob=None):
+    '''One fresh PSy object; its first len(versions) kernel objects (all calls of
+    the subject kernel) are transformed into the given kernel versions.
+    -> (psy, [kernel objects]).'''
+    from psyclone.psyGen import PSyFactory
+    from psyclone.transformations import (ACCRoutineTrans,
+                                          Dynamo0p3KernelConstTrans)
+    psy = PSyFactory(SUBJECT["api"], distributed_memory=False).create(info2)
+    kerns = [k for k in psy.invokes.invoke_list[0].schedule.coded_kernels()
+             if k.module_name.lower() == SUBJECT["base"] + "_mod"][:len(versions)]
+    if len(kerns) < len(versions):
+        raise ValueError("not enough kernel calls in the layer subject")
+    for kern, version in zip(kerns, versions):
+        if blob is not None:
+            import pickle
+            kern._fp2_ast = pickle.loads(blob)    # pylint: disable=protected-access
+        if version == 1:
+            ACCRoutineTrans().apply(kern)
+        else:
+            Dynamo0p3KernelConstTrans().apply(kern, {"number_of_layers": 20 + version})
+    return psy, kerns
+
+
+# ---------------------------------------------------- process-local state
+
+class ProcState:
+    '''Runs are threads of one interpreter, but runs of different PROCESSES must
+    not share what a process keeps in memory.  The only such memory reachable
+    from rename_and_write besides the run's own objects is class-level state of
+    CodedKern (its bases and subclasses) and module-level state of
+    psyclone.psyGen: every mutable (set/dict/list) attribute found there is
+    given one private copy per process, installed whenever the scheduler lets a
+    run of that process execute (one run executes at a time).'''
+
+    pristine = None        # [(owner, name, import-time value)], see init()
+
+    @classmethod
+    def slots(cls):
+        from psyclone import psyGen
+        from psyclone.psyGen import CodedKern
+
+        def subclasses(klass):
+            out = []
+            for sub in klass.__subclasses__():
+                out.append(sub)
+                out.extend(subclasses(sub))
+            return out
+        owners = [k for k in CodedKern.__mro__ if k is not object]
+        owners += sorted(set(subclasses(CodedKern)), key=lambda k: k.__qualname__)
+        owners.append(psyGen)
+        return [(own, name) for own in owners for name, val in sorted(vars(own).items())
+                if isinstance(val, (set, dict, list)) and not name.startswith("__")]
+
+    @classmethod
+    def init(cls):
+        '''Remember the state a fresh process starts with (call before any replay).'''
+        import copy
+        cls.pristine = [(own, name, copy.deepcopy(getattr(own, name)))
+                        for own, name in cls.slots()]
+
+    @classmethod
+    def fresh(cls):
+        import copy
+        return [(own, name, copy.deepcopy(val)) for own, name, val in cls.pristine]
+
+    @staticmethod
+    def install(state):
+        for own, name, val in state:
+            setattr(own, name, val)
+
+    @staticmethod
+    def capture(state):
+        return [(own, name, getattr(own, name)) for own, name, _ in state]
+
+
 def set_config(outdir, scheme):
     from psyclone.configuration import Config
     cfg = Config.get()
@@ -153,6 +239,8 @@ class Scheduler:
         self.bytes = {}          # file name -> bytes seen after the previous step
         self.result = {}         # run -> (res, text, exception repr)
         self.aborted = False     # the replay was given up: blocked runs end
+        self.proc_of = {}        # run -> process
+        self.procstate = {}      # process -> its private class/module-level state
 
     # ---- run side
     def current(self):
@@ -169,12 +257,16 @@ class Scheduler:
             return "tmp"
         return "x:" + fname
 
-    def step(self, call, name, flags, action, classify=None):
-        '''Block until released, then perform `action` for real.'''
+    def step(self, call, name, flags, action, classify=None, ends=None):
+        '''Block until released, then perform `action` for real.  `ends`: the
+        previous run of the same process, over at the moment this one waits.'''
         run = self.current()
         if run is None:
             return action()
         with self.cv:
+            if ends is not None:
+                self.state[ends] = "done"
+                self.pending[ends] = "done"
             self.pending[run] = call
             self.state[run] = "blocked"
             self.cv.notify_all()
@@ -201,21 +293,32 @@ class Scheduler:
         return value
 
     # ---- scheduler side
-    def start(self, run, body):
+    def start_process(self, proc, runs, bodies):
+        '''One thread per process: its runs one after the other, each waiting at
+        its "begin" gate (the entry of rename_and_write) to be released.'''
         def wrapper():
-            self.tls.run = run
+            prev = None
             try:
-                body()
+                for run in runs:
+                    self.tls.run = run
+                    self.step("begin", "", "", lambda: None, ends=prev)
+                    bodies[run]()
+                    prev = run
             finally:
                 with self.cv:
-                    self.state[run] = "done"
-                    self.pending[run] = "done"
+                    for run in runs:
+                        self.state[run] = "done"
+                        self.pending[run] = "done"
                     self.cv.notify_all()
+        self.procstate[proc] = ProcState.fresh()
         with self.cv:
-            self.state[run] = "running"
-        thr = threading.Thread(target=wrapper, name=f"run{run}", daemon=True)
+            for run in runs:
+                self.proc_of[run] = proc
+                self.state[run] = "waiting"      # not yet at its gate
+            self.state[runs[0]] = "running"
+        thr = threading.Thread(target=wrapper, name=f"proc{proc}", daemon=True)
         thr.start()
-        self._wait_quiet(run)
+        self._wait_quiet(runs[0])
         return thr
 
     def abort(self):
@@ -240,9 +343,13 @@ class Scheduler:
             if self.state[run] != "blocked":
                 raise Stall(f"run {run} is not blocked ({self.state[run]})")
             self.last_event = None
+            # what this run's process keeps in (class/module-level) memory
+            ProcState.install(self.procstate[self.proc_of[run]])
             self.grant = run
             self.cv.notify_all()
         self._wait_quiet(run)
+        self.procstate[self.proc_of[run]] = ProcState.capture(
+            self.procstate[self.proc_of[run]])
         event = self.last_event
         wrote = None
         if event["call"] == "write" and event["res"] == "ok" and event["name"].isdigit():
@@ -466,6 +573,15 @@ class PsyFacts:
         self.re_call = re.compile(r"call\s+" + base + r"_(\d+)_code\s*\(", re.I)
         self.re_any = re.compile(r"(?:use|call)\s+" + base + r"\w*", re.I)
 
+    def used_by_kernel(self, kern):
+        '''Tag of the module/routine names a kernel object hands to its PSy layer.'''
+        base = SUBJECT["base"]
+        mmod = re.fullmatch(base + r"_(\d+)_mod", kern.module_name, re.I)
+        msub = re.fullmatch(base + r"_(\d+)_code", kern.name, re.I)
+        if mmod and msub and mmod.group(1) == msub.group(1):
+            return int(mmod.group(1))
+        return -1
+
     def used(self, code):
         '''Tag of the kernel module/routine the PSy layer uses; -1 if it is not
         one consistent tagged name.'''
@@ -478,13 +594,22 @@ class PsyFacts:
         return -1
 
 
-def replay(case, info, refs, blob=None):
-    '''Run case["sched"] with real concurrent runs, each on its own fresh PSy
-    object with its own transformed kernel.  -> the recorded trace.'''
+def replay(case, info, refs, blob=None, info2=None):
+    '''Run case["sched"] with real concurrent runs.  A run is one call of
+    rename_and_write on its own transformed kernel object; the runs of one
+    process (case["proc"]) happen one after the other in one thread:
+      mode "gen":   every run is a generate (psy.gen) of its own fresh PSy object
+                    (a process that generates several times into the directory);
+      mode "layer": the runs of a process with >= 2 runs are kernel objects of
+                    ONE PSy layer, transformed differently, whose
+                    rename_and_write calls follow each other.
+    -> the recorded trace.'''
     from psyclone import psyGen
     from psyclone.errors import GenerationError
     from pv import core
     nruns, scheme, pre, ver = case["nruns"], case["scheme"], case["pre"], case["ver"]
+    proc = case.get("proc") or list(range(1, 4))
+    mode = case.get("mode", "gen")
     import tempfile
     outdir = core.mktemp("pv-c29-out-")
     real_os, had_open = psyGen.os, "open" in vars(psyGen)
@@ -492,7 +617,26 @@ def replay(case, info, refs, blob=None):
     sched = None
     try:
         set_config(outdir, scheme)
-        psys = {run: make_psy(info, ver[run - 1], blob) for run in range(1, nruns + 1)}
+        if ProcState.pristine is None:
+            ProcState.init()
+        procs = {}
+        for run in range(1, nruns + 1):
+            procs.setdefault(proc[run - 1], []).append(run)
+        facts = PsyFacts()
+        actions = {}            # run -> callable -> tag used by the PSy layer
+        for runs in procs.values():
+            if mode == "layer" and len(runs) >= 2 and info2 is not None:
+                _, kerns = make_layer(info2, [ver[r - 1] for r in runs], blob)
+                for run, kern in zip(runs, kerns):
+                    def act(kern=kern):
+                        kern.rename_and_write()
+                        return facts.used_by_kernel(kern)
+                    actions[run] = act
+            else:
+                for run in runs:
+                    def act(psy=make_psy(info, ver[run - 1], blob)):
+                        return facts.used(str(psy.gen))
+                    actions[run] = act
         if pre:
             # the kernel an earlier, completed, sequential run of version `pre`
             # wrote (refs[pre] is the text such a run writes, tag 0)
@@ -502,7 +646,6 @@ def replay(case, info, refs, blob=None):
         classifier = Classifier(refs)
         sched = Scheduler(outdir, classifier, split_write=case.get("split", False))
         fs0, _, stray0 = sched.project(0)
-        facts = PsyFacts()
         psyGen.os = OsProxy(sched)
         psyGen.open = make_open(sched)
         tempfile.mkstemp = make_mkstemp(sched, real_mkstemp)
@@ -510,8 +653,7 @@ def replay(case, info, refs, blob=None):
         def body(run):
             def inner():
                 try:
-                    code = str(psys[run].gen)
-                    sched.result[run] = ("ok", facts.used(code), "")
+                    sched.result[run] = ("ok", actions[run](), "")
                 except GenerationError as err:
                     known = "already exists in the kernel-output directory" in str(err)
                     sched.result[run] = ("error" if known else "crash", -1,
@@ -522,8 +664,8 @@ def replay(case, info, refs, blob=None):
                     sched.result[run] = ("crash", -1, repr(err)[:300])
             return inner
 
-        for run in range(1, nruns + 1):
-            sched.start(run, body(run))
+        for pid, runs in sorted(procs.items()):
+            sched.start_process(pid, runs, {run: body(run) for run in runs})
         events, skipped = [], 0
         order = list(case["sched"])
         pos = 0
@@ -551,12 +693,15 @@ def replay(case, info, refs, blob=None):
             res, used, msg = sched.result.get(run, ("off", -1, ""))
             fin.append({"res": res, "used": used, "msg": msg})
         return {"id": case["id"], "scheme": scheme, "pre": pre, "ver": ver,
+                "proc": proc, "mode": mode,
                 "nruns": nruns, "split": bool(case.get("split", False)),
                 "sched": case["sched"], "fs0": fs0, "stray0": stray0,
                 "events": events, "fin": fin, "resched": skipped}
     finally:
         if sched is not None:
             sched.abort()
+        if ProcState.pristine is not None:
+            ProcState.install(ProcState.fresh())
         tempfile.mkstemp = real_mkstemp
         psyGen.os = real_os
         if not had_open and "open" in vars(psyGen):
